@@ -807,6 +807,32 @@ func judgeHostile(env *vh.Env, rep *vh.Report, cases []hcase, res []hres, model 
 		}
 		rep.CountN("hostile:site-resolved-in-isolation", len(lone))
 	}
+	// load-proofing: TotalAlloc is process-wide (background goroutines of the repository allocate
+	// too): an allocation over the bound is measured again, alone, and the smaller reading counts
+	{
+		var over []hcase
+		var overIdx []int
+		for i, c := range cases {
+			n := int64(len(c.Hex) / 2)
+			if (res[i].class == "value" || res[i].class == "panic") && res[i].alloc > allocK*n+allocC && len(over) < 48 {
+				over = append(over, c)
+				overIdx = append(overIdx, i)
+			}
+		}
+		if len(over) > 0 {
+			self, _ := os.Executable()
+			r2 := runChildren(self, allocK, allocC, over, 4, 20*time.Second)
+			for k := range r2 {
+				if (r2[k].class == "value" || r2[k].class == "panic") && r2[k].alloc < res[overIdx[k]].alloc {
+					res[overIdx[k]].alloc = r2[k].alloc
+					if r2[k].site != "-" && r2[k].site != "?" {
+						res[overIdx[k]].site = r2[k].site
+					}
+				}
+			}
+			rep.CountN("hostile:over-bound-remeasured", len(over))
+		}
+	}
 	var vlines []string
 	var vidx []int
 	for i, c := range cases {
